@@ -447,6 +447,18 @@ def r20_1(ctx, rr):
         for i, e in rebuilds:
             rr.instances += 1
             rr.check(bool(seeks) and seeks[0][0] < i, "%s:decoder-after-seek" % short_fn(b.key), "%s must re-create the decoder after the seek" % b.key, F.loc(e["node"]))
+            # the reader that is sought is the very reader handed to the new decoder (not an inner layer
+            # reached through get_mut()/get_ref(), which would leave a buffering layer's stale bytes in place)
+            if seeks:
+                def root_local(x):
+                    while x.get("k") == "AddrOf" or (x.get("k") == "Unary" and x.get("op") == "*"):
+                        x = x["e"]
+                    return x.get("id") if x.get("k") == "Path" and x.get("res") == "local" else None
+                sn = seeks[0][1]["node"]
+                sought = root_local(call_args(sn)[0]) if call_args(sn) else None
+                fed = root_local(call_args(e["node"])[0]) if call_args(e["node"]) else None
+                rr.instances += 1
+                rr.check(sought is not None and sought == fed, "%s:seeks-the-reader-it-decodes" % short_fn(b.key), "%s seeks `%s` but builds the new decoder over `%s`: a buffering layer in between keeps stale bytes of the previous pass" % (b.key, show(F, call_args(sn)[0])[:80] if call_args(sn) else None, show(F, call_args(e["node"])[0])[:80] if call_args(e["node"]) else None), F.loc(sn))
         # a decoder-based lender must rebuild its decoder
         if "Zstd" in b.key or "Gzip" in b.key:
             rr.instances += 1
